@@ -33,15 +33,15 @@ def run(tier, seed):
     rng = random.Random(seed * 7919 + 9)
     quick = tier != 'thorough'
     items, asts = [], []
-    fams = [('pair', genprog.gen_pair_program, 500 if quick else 2500), ('tie', genprog.gen_greedy_tie_program, 150 if quick else 600),
-            ('case', lambda s: genprog.gen_case_program(s, False), 300 if quick else 1200)]
+    fams = [('pair', genprog.gen_pair_program, 500 if quick else 1200), ('tie', genprog.gen_greedy_tie_program, 150 if quick else 400),
+            ('case', lambda s: genprog.gen_case_program(s, False), 300 if quick else 800)]
     for name, fn, n in fams:
         for i in range(n):
             s = rng.randrange(1 << 30)
             ast, src = fn(s)
             items.append(('%s:%d' % (name, s), src, ['-O1']))
             asts.append(ast)
-    g_items, g_asts = c01.gen_items(rng, 200 if quick else 800, c01.FEATURES, levels=('-O1',))
+    g_items, g_asts = c01.gen_items(rng, 200 if quick else 500, c01.FEATURES, levels=('-O1',))
     items += g_items
     asts += g_asts
     progs = runner.compile_programs(items, want=('machine', 'codegen'))
